@@ -168,7 +168,7 @@ def m_set(it, fr, x=()):
         j = z3.Int('j!st')
         k = z3.Int('k!st')
         pred = LAM(j, z3.Exists([k], z3.And(k >= 0, k < x.n, z3.Select(x.arr, k + x.off) == j)))
-        return SSet(pred, x.ek, None)
+        return SSet(pred, x.ek, None, src=x)
     items = it.concrete_items(x)
     if items is None:
         raise Unsupported('set(%r)' % (x,))
@@ -179,10 +179,12 @@ def m_set(it, fr, x=()):
 
 def m_sum(it, fr, x, start=0):
     if isinstance(x, SSeq):
+        j = z3.Int('j!su')
         if x.ek == 'real':
-            j = z3.Int('j!su')
-            return ops.binop('+', start, ops.mk(SumR(x.arr, x.off, z3.simplify(x.off + x.n)), 'real'))
-        return ops.binop('+', start, ops.mk(SumI(x.arr, x.off, z3.simplify(x.off + x.n)), 'int'))
+            return ops.binop('+', start, ops.mk(SumR(LAM(j, z3.Select(x.arr, j)), x.off, z3.simplify(x.off + x.n)), 'real'))
+        if x.ek == 'bool':
+            return ops.binop('+', start, ops.mk(SumI(LAM(j, z3.If(z3.Select(x.arr, j), z3.IntVal(1), z3.IntVal(0))), x.off, z3.simplify(x.off + x.n)), 'int'))
+        return ops.binop('+', start, ops.mk(SumI(LAM(j, z3.Select(x.arr, j)), x.off, z3.simplify(x.off + x.n)), 'int'))
     items = it.concrete_items(x)
     if items is None:
         raise Unsupported('sum(%r)' % (x,))
